@@ -34,8 +34,8 @@ def fake_get_all_zfiles(zdir):
     return out
 
 
-hx.set(c, "prepend_zdir", fake_prepend_zdir)
-hx.set(c, "get_all_zfiles", fake_get_all_zfiles)
+hx.put(c, "prepend_zdir", fake_prepend_zdir)
+hx.put(c, "get_all_zfiles", fake_get_all_zfiles)
 
 
 class Cfg:
